@@ -514,7 +514,7 @@ func (e *Enc) unop(cur *cursor, x *ssa.UnOp) {
 	case token.SUB:
 		v := e.asTerm(e.value(fc, x.X))
 		if e.m.sortOf(x.Type()) == "F64" {
-			e.setVal(cur, x, fmt.Sprintf("(fp.neg %s)", v))
+			e.setVal(cur, x, fmt.Sprintf("(fneg %s)", v))
 		} else {
 			e.setVal(cur, x, e.wrap(fmt.Sprintf("(- %s)", v), x.Type()))
 		}
@@ -576,25 +576,25 @@ func (e *Enc) binop(cur *cursor, op token.Token, a, b Val, opTy, resTy types.Typ
 	case "F64":
 		switch op {
 		case token.ADD:
-			return fmt.Sprintf("(fp.add RNE %s %s)", x, y)
+			return fmt.Sprintf("(fadd %s %s)", x, y)
 		case token.SUB:
-			return fmt.Sprintf("(fp.sub RNE %s %s)", x, y)
+			return fmt.Sprintf("(fsub %s %s)", x, y)
 		case token.MUL:
-			return fmt.Sprintf("(fp.mul RNE %s %s)", x, y)
+			return fmt.Sprintf("(fmul %s %s)", x, y)
 		case token.QUO:
-			return fmt.Sprintf("(fp.div RNE %s %s)", x, y)
+			return fmt.Sprintf("(fdiv %s %s)", x, y)
 		case token.EQL:
-			return fmt.Sprintf("(fp.eq %s %s)", x, y)
+			return fmt.Sprintf("(feq %s %s)", x, y)
 		case token.NEQ:
-			return fmt.Sprintf("(not (fp.eq %s %s))", x, y)
+			return fmt.Sprintf("(not (feq %s %s))", x, y)
 		case token.LSS:
-			return fmt.Sprintf("(fp.lt %s %s)", x, y)
+			return fmt.Sprintf("(flt %s %s)", x, y)
 		case token.LEQ:
-			return fmt.Sprintf("(fp.leq %s %s)", x, y)
+			return fmt.Sprintf("(fle %s %s)", x, y)
 		case token.GTR:
-			return fmt.Sprintf("(fp.gt %s %s)", x, y)
+			return fmt.Sprintf("(fgt %s %s)", x, y)
 		case token.GEQ:
-			return fmt.Sprintf("(fp.geq %s %s)", x, y)
+			return fmt.Sprintf("(fge %s %s)", x, y)
 		}
 	case "Str":
 		switch op {
